@@ -98,7 +98,7 @@ func vConsoleCheck(out []byte, sep string, cols []vCol, root *vExp, stack string
 	vrt.Cover("done")
 }
 
-//verif: prop=C16 bounds="console EncodeEntry: every subset of the 7 metadata keys x entry shapes (time zero/symbolic, name, caller, stack), production encoders, 0 or 1 field from the lite menu, default separator; message and function non-empty"
+//verif: prop=C16 bounds="console EncodeEntry: every subset of the 7 metadata keys x entry shapes (time zero/symbolic, name, caller, stack), production encoders, 0 or 1 field from the lite menu, default separator; function non-empty; message plain, ending with the separator or starting with it"
 func VC16Presence() {
 	bit := func(n string) bool { return vrt.Choice(n, 2) == 1 }
 	cfg := EncoderConfig{
@@ -110,10 +110,16 @@ func VC16Presence() {
 	}
 	vTimeSel, vDurSel = vTimeEpochNanos, vDurNanos
 	sh := vEntryShape{timeSet: bit("E.time"), named: bit("E.name"), caller: bit("E.caller"), fn: true, stack: bit("E.stack")}
-	ent := vMakeEntry(sh, WarnLevel, "hello")
+	// the message may itself end with the separator: it is still one column, followed by one separator
+	withField := bit("field")
+	msg := "hello"
+	if withField && cfg.MessageKey != "" && !sh.stack && sh.named {
+		msg = []string{"hello", "hello\t", "\thello"}[vrt.Choice("msg", 3)]
+	}
+	ent := vMakeEntry(sh, WarnLevel, msg)
 	root, ref := vNewRef()
 	var fields []Field
-	if bit("field") {
+	if withField {
 		vLiteNow = true
 		fields = append(fields, vMakeField("f0", vLiteMenu[vrt.Choice("sel0", len(vLiteMenu))], "kf0", ref, &cfg, 0))
 		vLiteNow = false
@@ -123,7 +129,7 @@ func VC16Presence() {
 	vrt.Assert("encode-returns-nil", err == nil)
 	out := buf.Bytes()
 	vrt.Observe("line", out)
-	cols := vConsoleColumns(&cfg, sh, "WARN", "hello", true, true, true, true)
+	cols := vConsoleColumns(&cfg, sh, "WARN", msg, true, true, true, true)
 	stack := ""
 	if sh.stack && cfg.StacktraceKey != "" {
 		stack = ent.Stack
